@@ -48,9 +48,24 @@ def bound_var(*operands):
     return z3.Const(fresh_name("bv"), PyStr)
 
 
+def beta(t):
+    """beta-reduce applications of lambda terms, (lambda x. b)[a] -> b[a/x], everywhere in t (keeps set/dict terms built from
+    comprehensions of comprehensions flat; purely syntactic, meaning-preserving)"""
+    if z3.is_quantifier(t):
+        return t
+    if not z3.is_app(t) or t.num_args() == 0:
+        return t
+    args = [beta(c) for c in t.children()]
+    if z3.is_select(t) and z3.is_quantifier(args[0]) and args[0].is_lambda() and args[0].num_vars() == 1:
+        return beta(z3.substitute_vars(args[0].body(), args[1]))
+    if all(a.eq(b) for a, b in zip(args, t.children())):
+        return t
+    return t.decl()(*args)
+
+
 def lam(body_fn, *operands):
     v = bound_var(*operands)
-    return z3.Lambda([v], body_fn(v))
+    return z3.Lambda([v], beta(body_fn(v)))
 card = z3.Function("card", CSetS, z3.IntSort())
 fl = z3.Function("fl", z3.RealSort(), z3.RealSort())  # float rounding, exactness mode
 RMapS = z3.ArraySort(PyStr, z3.RealSort())
@@ -126,6 +141,7 @@ def str_distinct_facts():
     fs = list(_fn_consts.values())
     if len(fs) > 1:
         out.append(z3.Distinct(*fs))
+    out.append(card(EMPTY_SET) == 0)  # the empty set has no element (global axiom of the uninterpreted cardinality)
     return out
 
 
